@@ -254,6 +254,33 @@ func init() {
 			{Name: "bind-ops+slash", Sc: scBind(defaultParams(), bindOpsFull(), []Template{tSlash}, []string{"bad"}, 6+d, 4, 3), Oracles: o},
 		}
 	}})
+	register(&CheckSpec{Prop: "C17", Runs: func(tier string) []RunSpec {
+		d := 0
+		if tier == "thorough" {
+			d = 2
+		}
+		o := []Oracle{oracleC17{}}
+		lo := AlphaOpts{RespKinds: []string{"ok", "bad"}, CtxOps: []string{"pause", "kill"}, Updates: []CtxUpdate{updTimeout2}, Withdraw: []string{"O1:P1"}, SetW: []string{"O1:W1"},
+			BindOps: []Action{actDisable("a", "P1", "O1")}}
+		return []RunSpec{
+			{Name: "names-queries", Sc: scNames(defaultParams(), 5+d, 3, 4), Oracles: o, Post: queryPost},
+			{Name: "life-queries", Sc: scLife(defaultParams(), []Template{tOne, tRep2, tLong}, lo, 6+d, 4, 2), Oracles: o, Post: queryPost},
+			{Name: "fees-queries", Sc: scFees(paramSet("0.1", "0.001"), false, 4+d, 3, 3), Oracles: o, Post: queryPost},
+			{Name: "mod-queries", Sc: scMod(defaultParams(), []Template{tMod1, tModPoor}, AlphaOpts{RespKinds: []string{"ok"}, ModOps: []string{"mpause", "mkill"}}, 6+d, 4, 2), Oracles: o, Post: queryPost},
+		}
+	}})
+	register(&CheckSpec{Prop: "C18", Runs: func(tier string) []RunSpec {
+		o := []Oracle{oracleC18{}}
+		d, b, m := bump(tier, 8, 5, 2)
+		eo := AlphaOpts{RespKinds: []string{"ok"}, CtxOps: []string{"pause", "start"}, Updates: []CtxUpdate{updCap1, updProvP2},
+			BindOps: []Action{actDisable("a", "P1", "O1"), actEnable("a", "P1", "O1", 0), actUpdate("a", "P1", "O1", 30, "p20", 0)}}
+		runs := []RunSpec{
+			{Name: "life-ids+positions", Sc: scLife(defaultParams(), []Template{tOne, tRep2, tPoor}, eo, d, b, m), Oracles: o},
+			{Name: "life-ids-flipped", Sc: flip(scLife(defaultParams(), []Template{tCapLow, tLong}, eo, d, b, m)), Oracles: o},
+		}
+		runs = append(runs, runsOf(lifeRuns(tier), o, MonFlags{}, "life-main", "mod-main")...)
+		return runs
+	}, Pure: keysAndIDs})
 	register(&CheckSpec{Prop: "C19", Runs: func(tier string) []RunSpec {
 		d := 0
 		if tier == "thorough" {
